@@ -81,6 +81,13 @@ def r1_agreement(rep, ctx):
             srcs = [v_] if isinstance(v_, ast.ListComp) else [getattr(st_, "value", None) for st_, _t in cres.origins(v_)] if isinstance(v_, ast.Name) else []
             if srcs and all(isinstance(x_, ast.ListComp) for x_ in srcs):
                 under(r, "list")
+            elif isinstance(v_, ast.Name):
+                # a local that holds the container built in one arm or the other (the result variable of an inlined
+                # helper): each `tuple(...)` / `list(...)` is judged where it is built
+                for st_, t_ in cres.origins(v_):
+                    for a_ in alternatives(t_):
+                        if st_ is not None and a_[0] == "call" and a_[1] in (("name", "tuple"), ("name", "list")) and a_[1][1] not in cres.defs:
+                            under(st_, a_[1][1])
             continue
         if not (isinstance(r, ast.Return) and isinstance(r.value, ast.Call) and isinstance(r.value.func, ast.Name)):
             continue
